@@ -16,6 +16,52 @@ mod live;
 mod rawcoq;
 #[allow(dead_code)]
 mod util;
+#[allow(dead_code)]
+mod alloc_count {
+    //! Counting global allocator: current and peak live heap bytes (observer for C08).
+    use std::alloc::{GlobalAlloc, Layout, System};
+    use std::sync::atomic::{AtomicUsize, Ordering};
+    pub struct Counting;
+    static CUR: AtomicUsize = AtomicUsize::new(0);
+    static PEAK: AtomicUsize = AtomicUsize::new(0);
+    unsafe impl GlobalAlloc for Counting {
+        unsafe fn alloc(&self, l: Layout) -> *mut u8 {
+            let p = unsafe { System.alloc(l) };
+            if !p.is_null() {
+                let c = CUR.fetch_add(l.size(), Ordering::Relaxed) + l.size();
+                PEAK.fetch_max(c, Ordering::Relaxed);
+            }
+            p
+        }
+        unsafe fn dealloc(&self, p: *mut u8, l: Layout) {
+            unsafe { System.dealloc(p, l) };
+            CUR.fetch_sub(l.size(), Ordering::Relaxed);
+        }
+        unsafe fn realloc(&self, p: *mut u8, l: Layout, new: usize) -> *mut u8 {
+            let q = unsafe { System.realloc(p, l, new) };
+            if !q.is_null() {
+                if new >= l.size() {
+                    let c = CUR.fetch_add(new - l.size(), Ordering::Relaxed) + (new - l.size());
+                    PEAK.fetch_max(c, Ordering::Relaxed);
+                } else {
+                    CUR.fetch_sub(l.size() - new, Ordering::Relaxed);
+                }
+            }
+            q
+        }
+    }
+    /// peak live bytes above the level at entry, while running `f`
+    pub fn peak_during<T>(f: impl FnOnce() -> T) -> (T, usize) {
+        let base = CUR.load(Ordering::Relaxed);
+        PEAK.store(base, Ordering::Relaxed);
+        let r = f();
+        let peak = PEAK.load(Ordering::Relaxed);
+        (r, peak.saturating_sub(base))
+    }
+}
+#[global_allocator]
+static GLOBAL: alloc_count::Counting = alloc_count::Counting;
+
 mod props {
     include!(concat!(env!("OUT_DIR"), "/props_gen.rs"));
 }
